@@ -445,6 +445,17 @@ func NegateDeMorgan(expr ast.Expr, recursive bool) ast.Expr {
 	}
 }
 
+// reassociable reports whether a op (b op c) may be rewritten to (a op b) op c.
+// That is not the case for -, /, %, <<, >>, &^ and the comparison operators.
+func reassociable(op token.Token) bool {
+	switch op {
+	case token.LAND, token.LOR, token.ADD, token.MUL, token.AND, token.OR, token.XOR:
+		return true
+	default:
+		return false
+	}
+}
+
 func SimplifyParentheses(node ast.Expr) ast.Expr {
 	var changed bool
 	// XXX accept list of ops to operate on
@@ -456,9 +467,7 @@ func SimplifyParentheses(node ast.Expr) ast.Expr {
 		}
 
 		if binop, ok := out.(*ast.BinaryExpr); ok {
-			if right, ok := binop.Y.(*ast.BinaryExpr); ok && binop.Op == right.Op {
-				// XXX also check that Op is associative
-
+			if right, ok := binop.Y.(*ast.BinaryExpr); ok && binop.Op == right.Op && reassociable(binop.Op) {
 				root := binop
 				pivot := root.Y.(*ast.BinaryExpr)
 				root.Y = pivot.X
